@@ -611,6 +611,14 @@ func genEPUB(c *fw.Ctx, idx int, o genOpts) ([]byte, *pkgModel) {
 		pos := r.Intn(n + 1)
 		book.NavInSpine = pos
 		np := part{Path: book.NavPath, Opt: append([]string{}, navLabels...)}
+		if r.Intn(2) == 0 {
+			// a navigation document is an ordinary XHTML content document: what it holds
+			// outside its <nav> elements is content of that spine item like any other
+			intro := toks.Next()
+			book.NavIntro = "Preface " + intro + " before the contents list."
+			np.Req = []string{intro}
+			f.add("nav-document-with-content-outside-nav")
+		}
 		m.Parts = append(m.Parts[:pos], append([]part{np}, m.Parts[pos:]...)...)
 		f.add("nav-document-in-spine")
 	} else {
